@@ -252,6 +252,25 @@ func (x *Exec) intrinsic(fr *Frame, st *State, ins ssa.Instruction, cc *ssa.Call
 		} else {
 			fr.regs[res] = intLit(0)
 		}
+	case "vs_ranged":
+		// vs_ranged[M](n): the map value the n-th map range statement of the enclosing function iterates over
+		rf := x.realFrame(fr)
+		if rf == nil {
+			panic(engErr("vs_ranged outside a function body"))
+		}
+		nC, ok := cc.Args[0].(*ssa.Const)
+		if !ok {
+			panic(engErr("vs_ranged: argument must be a constant"))
+		}
+		rng := nthRange(rf.fn, int(nC.Int64()))
+		if rng == nil {
+			panic(engErr("vs_ranged: %s has no map range statement %d", rf.fn.Name(), nC.Int64()))
+		}
+		if m, ok := rf.regs[rng]; ok {
+			fr.regs[res] = m
+		} else {
+			fr.regs[res] = intLit(0)
+		}
 	case "vs_visited":
 		// vs_visited(n, k): key k was already produced by the n-th range statement of the enclosing function
 		rf := x.realFrame(fr)
